@@ -1151,6 +1151,118 @@ fn isect_and_select(s: &mut Session, rng: &mut Rng, sc: &Scenario, ndefs: usize,
     }
 }
 
+
+// ------------------------------------------------------------------------------------------
+// byte level: the model parses the RAW table bytes itself (Model/PatchMapBytes.lean)
+// ------------------------------------------------------------------------------------------
+
+/// byte mutation / truncation families on a built table
+fn mutate_table(rng: &mut Rng, orig: &[u8]) -> (Vec<u8>, &'static str) {
+    let mut b = orig.to_vec();
+    match rng.below(10) {
+        0 | 1 => (b, "orig"),
+        2 | 3 => {
+            if b.is_empty() { return (b, "orig"); }
+            let i = rng.below(b.len() as u64) as usize;
+            b[i] = match rng.below(6) { 0 => 0, 1 => 0xFF, 2 => b[i].wrapping_add(1), 3 => b[i] ^ (1 << rng.below(8)), _ => rng.next() as u8 };
+            (b, "flip")
+        }
+        4 | 5 => { let n = rng.below(b.len() as u64 + 1) as usize; b.truncate(n); (b, "trunc") }
+        6 => { let n = b.len().saturating_sub(1 + rng.below(4) as usize); b.truncate(n); (b, "trunc-tail") }
+        7 => { for _ in 0..(1 + rng.below(6)) { b.push(rng.next() as u8); } (b, "extend") }
+        _ => {
+            // targeted header fields: format byte, field flags, counts, the two offsets, template length
+            if b.len() < 36 { return (b, "orig"); }
+            let len = b.len() as u32;
+            let off = |rng: &mut Rng| -> u32 { match rng.below(6) { 0 => 0, 1 => len, 2 => len + 1, 3 => len.saturating_sub(1), 4 => 0xFFFF_FFFF, _ => rng.below(len as u64 + 2) as u32 } };
+            match rng.below(8) {
+                0 => b[0] = *rng.pick(&[0u8, 1, 2, 3]),
+                1 => b[4] = rng.below(4) as u8,
+                2 => { if b[0] == 2 { let o = off(rng); b[25..29].copy_from_slice(&o.to_be_bytes()); } else { let o = off(rng); b[28..32].copy_from_slice(&o.to_be_bytes()); } }
+                3 => { if b[0] == 2 { let o = off(rng); b[29..33].copy_from_slice(&o.to_be_bytes()); } else { let o = off(rng); b[32..36].copy_from_slice(&o.to_be_bytes()); } }
+                4 => { if b[0] == 2 { let c = u24(rng.below(12) as u32); b[22..25].copy_from_slice(&c); } else { let v = (rng.below(600) as u16).to_be_bytes(); b[21..23].copy_from_slice(&v); } }
+                5 => { if b[0] == 2 { let v = (rng.below(len as u64 + 4) as u16).to_be_bytes(); b[33..35].copy_from_slice(&v); } else { let v = (rng.below(40) as u16).to_be_bytes(); b[23..25].copy_from_slice(&v); } }
+                6 => { if b[0] == 2 { b[21] = rng.below(6) as u8; } else { let c = u24(rng.below(30) as u32); b[25..28].copy_from_slice(&c); } }
+                _ => { let i = 5 + rng.below(16) as usize; b[i] = rng.next() as u8; }
+            }
+            (b, "field")
+        }
+    }
+}
+
+fn raw_tok(t: &Option<Vec<u8>>) -> String {
+    match t { None => "N".into(), Some(b) => format!("B {}", hex(b)) }
+}
+
+fn bytes_cases(s: &mut Session, rng: &mut Rng, n: usize) {
+    for i in 0..n {
+        let rich = i % 4 == 3;
+        let sc = gen_scenario(rng, i % 3 == 0, if rich { 8 } else if i % 2 == 0 { 0 } else { 6 }, rich);
+        // the unmutated tables (format 1 needs the real charmap only for its tokens, not its bytes)
+        let a0 = sc.build_table(&sc.ift, &[]).map(|t| t.bytes);
+        let b0 = sc.build_table(&sc.iftx, &[]).map(|t| t.bytes);
+        let (a, fa) = match &a0 { Some(t) => { let (m, f) = mutate_table(rng, t); (Some(m), f) } None => (None, "none") };
+        let (b, fb) = match &b0 { Some(t) => { let (m, f) = if rng.chance(1, 2) { mutate_table(rng, t) } else { (t.clone(), "orig") }; (Some(m), f) } None => (None, "none") };
+        s.count(&format!("bytes:mut:{fa}")); s.count(&format!("bytes:mut2:{fb}"));
+        let font = build_font(a.as_deref(), b.as_deref(), sc.maxp, &sc.cmap);
+        // the two views of the character map (see Scenario::build)
+        let (cm_inv, cm_map): (Vec<(u32, u32)>, Vec<(u32, u32)>) = {
+            let f = FontRef::new(&font).unwrap();
+            let cm = Charmap::new(&f);
+            let mut v: Vec<(u32, u32)> = cm.mappings().map(|(c, g)| (c, g.to_u32())).collect();
+            v.sort(); v.dedup();
+            let mut cps: BTreeSet<u32> = v.iter().map(|(c, _)| *c).collect();
+            cps.extend(sc.cmap.iter().map(|(c, _)| *c));
+            cps.insert(0xFFFF);
+            let mut w: Vec<(u32, u32)> = cps.into_iter().filter_map(|c| cm.map(c).map(|g| (c, g.to_u32()))).collect();
+            w.sort(); w.dedup();
+            (v, w)
+        };
+        // decoded entries of format-2 tables, straight from the bytes
+        for (iftx, t) in [(false, &a), (true, &b)] {
+            let Some(t) = t else { continue };
+            if t.first() == Some(&1) && rng.chance(2, 3) { continue; }
+            let r = catch(|| { let f = FontRef::new(&font).unwrap(); pmh::format2_entries(&f, iftx).map_err(|e| read_err(&e)) });
+            let shown = match &r {
+                Err(p) => format!("panic:{p}"),
+                Ok(Err(e)) => e.clone(),
+                Ok(Ok(es)) => show_list(&es.iter().map(|e| format!("<{}|ch[{}]{}|{}|{}|f{}|b{}>",
+                    show_def(&e.subset_definition),
+                    if e.child_indices.is_empty() { "-".into() } else { e.child_indices.iter().map(|c| c.to_string()).collect::<Vec<_>>().join(",") },
+                    if e.conjunctive_child_match { "&" } else { "|" },
+                    if e.ignored { "ign" } else { "live" },
+                    show_id(&e.uri.id), fmt_number(&e.uri.encoding), e.uri.application_flag_bit_index)).collect::<Vec<_>>()),
+            };
+            match &r { Ok(Ok(_)) => s.count("f2b:ok"), Ok(Err(e)) => s.count(&format!("f2b:{}", e.chars().take(44).collect::<String>())), Err(_) => s.count("f2b:panic") }
+            s.oracle("table-bytes-decode-no-panic", r.is_ok(), || format!("f2b {} {}", iftx as u8, hex(t)), || shown.clone());
+            if let Ok(Ok(es)) = &r {
+                // every decoded entry lies inside the table: its application bit addresses a table byte
+                let ok = es.iter().all(|e| e.uri.application_flag_bit_index / 8 < t.len());
+                s.oracle("decoded-entries-within-table", ok, || format!("f2b {} {}", iftx as u8, hex(t)), || shown.clone());
+            }
+            s.case("f2b", format!("f2b {} {}", iftx as u8, hex(t)), shown);
+        }
+        for _ in 0..3 {
+            let d = if rng.chance(1, 4) { SubsetDefinition::all() } else { gen_def(rng, 90) };
+            let cm = if d.codepoints.is_inverted() { &cm_inv } else { &cm_map };
+            let mut req = format!("isectb {} {} {}", def_tokens(&d), sc.maxp, cm.len());
+            for (c, g) in cm { req.push_str(&format!(" {c} {g}")); }
+            req.push_str(&format!(" {} {}", raw_tok(&a), raw_tok(&b)));
+            let off = offered(&font, &d);
+            let shown = show_offered(&off);
+            match &off { Ok(Ok(v)) => s.count(if v.is_empty() { "isectb:empty" } else { "isectb:nonempty" }),
+                         Ok(Err(e)) => s.count(&format!("isectb:{}", e.chars().take(44).collect::<String>())), Err(_) => s.count("isectb:panic") }
+            s.oracle("table-bytes-intersect-no-panic", off.is_ok(), || req.clone(), || shown.clone());
+            if let Ok(Ok(v)) = &off {
+                // application bits address bytes of their own table
+                let ok = v.iter().all(|(u, _)| { let t = if u.is_iftx { &b } else { &a }; t.as_ref().map_or(false, |t| u.application_flag_bit_index / 8 < t.len()) });
+                s.oracle("offered-application-bits-within-table", ok, || req.clone(), || shown.clone());
+            }
+            s.case("isectb", req, shown);
+        }
+    }
+}
+
 fn decode_cases(s: &mut Session, rng: &mut Rng, n: usize) {
     for _ in 0..n {
         let which = rng.below(2) as u8;
@@ -1571,6 +1683,7 @@ fn run(cfg: &Config, s: &mut Session) {
         let sc = gen_scenario(&mut rng, i % 3 == 0, if rich { 8 } else if i % 2 == 0 { 0 } else { 6 }, rich);
         isect_and_select(s, &mut rng, &sc, 4, rich);
     }
+    bytes_cases(s, &mut rng, 700 * scale);
     run_cases(s, &mut rng, 400 * scale);
     f1_overflow_cases(s);
     extend_loop_cases(s);
